@@ -1,7 +1,6 @@
 package main
 
 import (
-	"sync/atomic"
 	"context"
 	"errors"
 	"fmt"
@@ -9,6 +8,7 @@ import (
 	"runtime"
 	"strconv"
 	"strings"
+	"sync/atomic"
 	"time"
 
 	"google.golang.org/grpc"
@@ -86,7 +86,7 @@ type outcome struct {
 	server   string
 	timedOut bool
 	skip     bool // the machine was too slow for a deadline script: nothing is concluded
-	leak     int // goroutines above the baseline after the call (wrapper only)
+	leak     int  // goroutines above the baseline after the call (wrapper only)
 	call     *call
 	sentReq  []proto.Message // client's own request objects
 	gotRes   []proto.Message // client's own response objects
